@@ -185,6 +185,61 @@ def run_history(res, cfg, scratch, rng, hidx, kill_budget):
         s.discard()
 
 
+def run_large_file(res, cfg, scratch, rng):
+    """A database file well beyond 1 MiB (rows of 40-70 KB): rewrites of late, middle and early rows."""
+    s = Session(cfg, scratch)
+    hub = ioproxy.IOHub()
+    hub.primary = s.path
+    try:
+        n = rng.randint(22, 34)
+        for i in range(n):
+            spec = gen.gen_point(rng, gen.MEAS, False)
+            spec["tags"]["big"] = rng.choice("xyz") * rng.choice([40_000, 60_000, 70_000])
+            spec["tags"]["i"] = str(i)
+            s.do({"op": "insert", "p": spec})
+        res.count("large_file_bytes", len(s.file_bytes()))
+        ops = [
+            {"op": "update", "q": ("cmp", "tags", ("i",), "==", str(n - 1)), "args": {"fields": {"static": {"x": 123}}}},
+            {"op": "remove", "q": ("cmp", "tags", ("i",), "==", str(n - 2))},
+            {"op": "update", "q": ("cmp", "tags", ("i",), "==", str(n // 2)), "args": {"tags": {"static": {"k": "changed"}}}},
+            {"op": "insert", "p": dict(gen.gen_point(rng, gen.MEAS, False), tags={"big": "w" * 50_000})},
+            {"op": "remove", "q": ("cmp", "tags", ("i",), "==", "0")},
+            {"op": "update_all", "args": {"unset_tags": "big"}},
+        ]
+        for op in ops:
+            old = [p.copy() for p in s.model.points]
+            mon = SnapshotMonitor(s.path)
+            hub.monitor = mon
+            hub.k = 0
+            with ioproxy.Installed(hub):
+                st = s.db.storage
+                st._handle = ioproxy.FileProxy(hub, st._handle, "primary")
+                try:
+                    out = s.do(op)
+                finally:
+                    if isinstance(st._handle, ioproxy.FileProxy):
+                        st._handle = st._handle._f
+            mon.final()
+            hub.monitor = ioproxy.NullMonitor()
+            res.count("large_file_ops")
+            if out.exc is not None or not out.agrees():
+                res.count("op_itself_misbehaved_skipped")
+                return
+            new = [p.copy() for p in s.model.points]
+            # keep distinct snapshots only (each is more than a megabyte)
+            seen, snaps = set(), []
+            for label, data in mon.snaps:
+                key = None if data is None else h64(data)
+                if key not in seen:
+                    seen.add(key)
+                    snaps.append((label, data))
+            mon.snaps = snaps
+            if not check_snapshots(res, s, op, old, new, mon, scratch, origin="proxy"):
+                return
+    finally:
+        s.discard()
+
+
 def run(res, tier, seed, shard, nshards):
     res.rule = (
         "seeded histories on a CSV database (flush_on_insert=True, auto_index on/off); for every mutating op the database "
@@ -200,6 +255,10 @@ def run(res, tier, seed, shard, nshards):
             for h in range(N_HIST[tier]):
                 rng = rng_for("C12", tier, seed, shard, ci, h)
                 run_history(res, cfg, scratch, rng, h, kill_budget)
+        for h in range(1 if tier == "quick" else 6):
+            if tier == "quick" and shard % 4 != 0:
+                break
+            run_large_file(res, CONFIGS[(shard // 4 + h) % 2], scratch, rng_for("C12", tier, seed, shard, "large", h))
     if not sysmon.available():
         res.notes.append("strace sub-tier skipped: " + sysmon.why_unavailable())
     res.require("proxy.crash_points")
@@ -215,6 +274,7 @@ def run(res, tier, seed, shard, nshards):
 
 
 def finalize(res, tier):
+    res.require("large_file_ops")
     if sysmon.available():
         res.require("kill.crash_points")
 
